@@ -459,7 +459,7 @@ func runC15(c *vk.Ctx) {
 	var cases []interface{}
 	for i := 0; i < n; i++ {
 		cases = append(cases, c15Case{Seed: vk.SubSeed(c.Seed, fmt.Sprintf("c15-%d", i)), Dir: c.TempDir("c15-"), Writers: 2 + i%3, Readers: 1 + i%3, Procs: []int{1, 2, 4, 16}[i%4],
-			Unsafe: i%4 == 3, MemMerge: i%2 == 0, StatsInCB: i%5 == 4, RaceLogDir: logDir,
+			Unsafe: i%4 == 3, MemMerge: i%2 == 0 || i%8 == 3, StatsInCB: i%5 == 4, RaceLogDir: logDir,
 			CloseGate: []string{"", "merge-intro", "merge-begin", "persist-intro", "persist-snp", "load-seg", "merge-intro"}[i%7]})
 	}
 	// the same workload on the second bundled segment format (two probe runs)
